@@ -5,7 +5,7 @@ from .. import core, sx
 from ..areas import store as st
 from ..extract import store as xstore
 
-MUT = {"plain": ("put", "pin", "rem"), "io": ("add", "put", "pin", "pop", "rem"), "ioset": ("add", "put", "pin", "pop", "rem", "remv")}
+MUT = {"plain": ("put", "pin", "rem", "trim"), "io": ("add", "put", "pin", "pop", "rem", "trim"), "ioset": ("add", "put", "pin", "pop", "rem", "remv", "trim")}
 
 
 def legal(kind, k):
@@ -35,8 +35,26 @@ def reference(kind, ops, keys):
                 exp = tuple(sorted(d.items()))
             else:
                 exp = ("items", {kk: tuple(vv) for kk, vv in d.items() if vv})
-        elif name == "cnt" and kind == "plain":
-            exp = len(d)
+        elif name in ("itemstop", "fullitems"):
+            top = op[1]
+            if kind == "plain":
+                exp = tuple(sorted((kk, vv) for kk, vv in d.items() if kk.startswith(top)))
+            elif name == "itemstop" and top == b"":
+                exp = ("items", {kk: tuple(vv) for kk, vv in d.items() if vv})
+            else:
+                exp = ANY          # a non-empty branch of SUFFIXED keys / the suffixed keys themselves: not a dictionary notion
+        elif name == "trim":
+            top = op[1]
+            if kind == "plain":
+                gone = [kk for kk in d if kk.startswith(top)]
+                exp = bool(gone)
+                for kk in gone:
+                    del d[kk]
+            else:               # generated with the empty top only (everything goes)
+                exp = any(d.values())
+                d.clear()
+        elif name == "cnt" and len(op) == 1:
+            exp = len(d) if kind == "plain" else sum(len(v) for v in d.values())
         elif not legal(kind, k):
             exp = ANY                      # outside the key space of the store: only "nothing else changes" is checked
         elif kind == "plain":
@@ -108,7 +126,7 @@ class C24(core.Check):
     thorough_n = 9000
     rule = ("case = (kind in plain|io|ioset, op list <= 30 over an adversarial key set of <= 4 keys (prefixes of each other, keys ending in or containing '.', "
             "keys that look like a suffixed key k.<32 hex>, the empty key, neighbours '-' '/' '0' of the separator) and 8 values with duplicates and the empty value); "
-            "after every op get() of every key of the case is observed, at the end the raw sub-db. non-trivial = at least 2 keys and 3 mutating ops; distinct by request line")
+            "plus getItemIter/getFullItemIter/trim with a top and cntAll; after every op get() of every key of the case is observed, at the end the raw sub-db. non-trivial = at least 2 keys and 3 mutating ops; distinct by request line")
     trusted_base = ["lmdb modelled as a sorted association list with set_range / iternext / delete / put(overwrite) cursor semantics (exercised by the correspondence on real lmdb)",
                     "translator harness/extract/store.py (SuffixSize, MaxSuffix, IonSep, Sep, lmdb max key size, suffix() probe)",
                     "correspondence harness/props/C24.py: compiled model driver vs hio.base.during on the same op lists, including the raw sub-db content",
@@ -149,6 +167,12 @@ class C24(core.Check):
             ("io", many + [("get", k), ("cnt", k), ("last", k), ("pop", k), ("add", k, b"z"), ("get", k)]),
             ("ioset", many + [("get", k), ("remv", k, b"v16"), ("add", k, b"v16"), ("last", k), ("get", k)]),
             ("plain", [("put", b"a", b"1"), ("put", b"a", b"2"), ("pin", b"a.b", b"3"), ("get", b"a"), ("rem", b"a"), ("rem", b"a"), ("get", b"a.b"), ("cnt",), ("items",)]),
+            # branches of the key space: getItemIter(top) / getFullItemIter(top) / trim(top)
+            ("plain", [("put", b"a", b"1"), ("put", b"a.b", b"2"), ("put", b"ab", b"3"), ("put", b"b", b"4"), ("itemstop", b"a"), ("itemstop", b"a."), ("fullitems", b""),
+                       ("itemstop", b"c"), ("trim", b"a."), ("items",), ("trim", b"a"), ("cnt",), ("trim", b"a"), ("trim", b""), ("cnt",)]),
+            ("io", [("add", b"a", b"1"), ("add", b"a", b"2"), ("add", b"a-b", b"3"), ("cnt",), ("itemstop", b"a"), ("itemstop", b"a."), ("fullitems", b"a."), ("fullitems", b""),
+                    ("itemstop", b""), ("trim", b""), ("cnt",), ("get", b"a"), ("trim", b"")]),
+            ("ioset", [("put", b"k", [b"x", b"y"]), ("add", b"kk", b"z"), ("cnt",), ("itemstop", b"k"), ("fullitems", b"kk"), ("trim", b""), ("items",)]),
             # outside the key space: error branches of the model (correspondence only)
             ("plain", [("put", b"", b"v"), ("get", b""), ("rem", b""), ("pin", b"x" * 512, b"v"), ("get", b"x" * 512), ("rem", b"x" * 512), ("put", b"x" * 511, b"v"), ("get", b"x" * 511)]),
             ("io", [("add", b"x" * 479, b"v"), ("add", b"x" * 478, b"v"), ("get", b"x" * 478), ("get", b"x" * 479), ("put", b"x" * 479, [b"a"]), ("pin", b"x" * 479, [b"a"])]),
@@ -220,11 +244,18 @@ class C24(core.Check):
                 k = rng.choice(keys)
                 v = rng.choice(vals)
                 r = rng.random()
+                if r < 0.06:
+                    top = rng.choice([b"", k, k[:1], k + b".", k[:-1]]) if kind == "plain" else b""
+                    nm = rng.choice(["itemstop", "fullitems", "trim"])
+                    if kind != "plain" and nm != "trim":
+                        top = rng.choice([b"", k, k + b".", k[:1]])
+                    ops.append((nm, top))
+                    continue
                 if kind == "plain":
                     name = rng.choice(["put", "put", "pin", "pin", "get", "rem", "rem", "cnt", "items"])
                     ops.append((name, k, v) if name in ("put", "pin") else (name, k) if name in ("get", "rem") else (name,))
                 else:
-                    names = ["add"] * 6 + ["put", "put", "pin", "get", "iter", "first", "last", "last", "pop", "pop", "rem", "cnt", "items"]
+                    names = ["add"] * 6 + ["put", "put", "pin", "get", "iter", "first", "last", "last", "pop", "pop", "rem", "cnt", "items", "cntall"]
                     if kind == "ioset":
                         names += ["remv", "remv", "remv"]
                     name = rng.choice(names)
@@ -234,6 +265,8 @@ class C24(core.Check):
                         ops.append((name, k, [rng.choice(vals) for _ in range(rng.choice([0, 1, 2, 3, 3, 5]))]))
                     elif name == "items":
                         ops.append((name,))
+                    elif name == "cntall":
+                        ops.append(("cnt",))
                     else:
                         ops.append((name, k))
             yield (kind, ops)
@@ -310,7 +343,7 @@ class C24(core.Check):
         simple = [b"a", b"b", b"c", b"d", b"e", b"f"]
         if len(keys) <= len(simple) and any(k not in simple for k in keys):
             ren = dict(zip(keys, simple))
-            yield (kind, [((o[0], ren[o[1]]) + tuple(o[2:])) if len(o) > 1 else o for o in ops])
+            yield (kind, [((o[0], ren.get(o[1], o[1])) + tuple(o[2:])) if len(o) > 1 else o for o in ops])
         for i in range(len(ops)):
             yield (kind, ops[:i] + ops[i + 1:])
         for i, o in enumerate(ops):
@@ -331,14 +364,17 @@ class C24(core.Check):
 
 
 C24.level_text = (
-    "Lean theorems, all unbounded: suffix_order (fixed-width hex suffix is order-isomorphic to the ordinal, every ordinal < 16^32), unsuffix_suffix_id, "
-    "contiguous_under_guard + scan_sees_all_under_guard (under the sep-prefix-free guard nothing foreign sorts between two entries of a key), plain_refines_dict (Suber = Key -> Val, unconditional), "
-    "io_refines_dict_partial / ioset_refines_dict_partial (add/put/pin/get/iter/getFirst/getLast/pop/rem/rem(val)/cnt of IoSuber / IoSetSuber return what Key -> List Val / Key -> ordered set "
-    "returns, for every history over a sep-prefix-free key set), other_key_unchanged_partial, getLast_partial; with NO guard: reachable_inv / reachable_no_valueError (every reachable sub-db is "
-    "well-formed, no scan raises ValueError). The full unguarded statement is false: refines_dict_fails_without_guard (F39) and getLast_fails_without_guard by decide, both replayed on the code "
-    "(known findings C24-K1, C24-K2). getItemIter and cntAll are carried by the correspondence only. The model is tied to the code by regenerated constants + a suffix/unsuffix probe table "
-    "(gen_* theorems) and by a differential run on real lmdb that also compares the raw sub-db content.")
+    "Lean theorems, all unbounded: suffix_order, unsuffix_suffix_id; plain Suber at full strength (plain_refines_dict, plain_getItemIter_spec, plain_cntAll_is_size, plain_trim_is_prefix_delete); "
+    "IoSuber / IoSetSuber under the EXACT guard ExactAt (no other key has its ordinal-0 entry between suffix(k,0) and suffix(k,B), B = ordinals the history consumes, B = MaxSuffix for keys getLast is asked "
+    "about = the complement of the known-finding triggers K1/K2): io_refines_dict_partial, ioset_refines_dict_partial (add put pin get iter getFirst getLast pop rem rem(val) cnt), "
+    "other_key_unchanged_partial, getLast_partial, contiguous_under_exact_guard, scan_sees_all_under_guard; the guard is NECESSARY: exact_guard_is_necessary (a violated pair yields a 3-op history on which "
+    "store and dictionary differ, within N+2 ordinals), exact_guard_is_necessary_last, scan_short_without_contiguity; io_refines_dict_sepfree is the corollary for the simple guard. "
+    "With NO guard: reachable_inv, reachable_no_valueError, io_items_cntAll_spec (getItemIter()/cntAll of the whole sub-db), io_trim_all_empties. Witnesses by decide: refines_dict_fails_without_guard (F39), "
+    "getLast_fails_without_guard, f39_keys_not_exact. Correspondence only: getItemIter(top)/getFullItemIter(top)/trim(top) of the io kinds with a non-empty top (they select by the suffixed key, not a "
+    "dictionary notion; modelled). Tie: regenerated constants + suffix/unsuffix probe table (gen_* theorems) and a differential run on real lmdb that also compares the raw sub-db.")
 C24.level_note = ("Trusted: Lean kernel + propext/Classical.choice/Quot.sound; the sorted-list model of lmdb; the translator; that the sampled correspondence is representative. "
-                  "The guard SepFree is sufficient, not necessary (the exact failure condition is the K1/K2 trigger). getFirst/getLast/pop ignoring a custom ionsep is outside the quantifier.")
+                  "Decided OUTSIDE the quantifier: keys lmdb cannot store (empty, or longer than max_key_size 511; 478 for the io kinds) - the plain Suber maps lmdb's refusal to KeyError, the io kinds let the raw "
+                  "lmdb.BadValsizeError through; no value is lost or confused, the dictionary model is claimed over lmdb-legal keys only (modelled, exercised by 2 corpus cases, no oracle clause). "
+                  "getFirst/getLast/pop ignoring a custom ionsep is outside the quantifier (default separator only).")
 
 CHECK = C24()
